@@ -593,13 +593,19 @@ def run(ctx):
         txt = (HEADER + "\n".join(defs) + "\nDefinition results : list Z := [\n  " + ";\n  ".join(cs)
                + "].\nEval vm_compute in results.\n")
         paths.append((ctx.write_gen("cases_%03d.v" % fi, txt), ids))
-    aux = (HEADER + "Definition results : list Z := [\n  " + ";\n  ".join(mask_checks + phi_cases + chord_cases)
-           + "].\nEval vm_compute in results.\n")
-    aux_path = ctx.write_gen("maps_phi.v", aux)
+    aux_all = mask_checks + phi_cases + chord_cases
+    aux_paths = []
+    for ai in range(0, len(aux_all), 400):
+        aux_paths.append(ctx.write_gen("maps_phi_%03d.v" % (ai // 400), HEADER + "Definition results : list Z := [\n  "
+                                       + ";\n  ".join(aux_all[ai:ai + 400]) + "].\nEval vm_compute in results.\n"))
     import time as _t
     _t0 = _t.time()
-    res = coqc_many([p for p, _ in paths] + [aux_path], timeout=1500)
-    ctx.log('coqc on %d files: %.1fs' % (len(paths) + 1, _t.time() - _t0))
+    res = coqc_many([p for p, _ in paths] + aux_paths, timeout=1500)
+    for p_ in list(res):
+        if not res[p_][0] and not res[p_][1].strip():
+            # killed without output (memory pressure when many checks run at once): once more, alone
+            res[p_] = common.coqc(p_, timeout=1500)
+    ctx.log('coqc on %d files: %.1fs' % (len(paths) + len(aux_paths), _t.time() - _t0))
     codes = {}
     diff = []
     for p, ids in paths:
@@ -616,16 +622,20 @@ def run(ctx):
         for i, z in enumerate(zs if good else []):
             codes[ids[i]] = z
         diff += bad
-    ok, out = res[aux_path]
-    vals = parse_evals(out) if ok else []
-    zs = parse_zlist(vals[0]) if ok and len(vals) == 1 else []
-    good = ok and len(zs) == len(mask_checks) + len(phi_cases) + len(chord_cases)
+    zs, good, out = [], True, ""
+    for ap in aux_paths:
+        ok, o = res[ap]
+        vals = parse_evals(o) if ok else []
+        if ok and len(vals) == 1:
+            zs += parse_zlist(vals[0])
+        else:
+            good, out = False, o
+            ctx.broken.append("coqc failed on %s: %s" % (ap, o[-500:]))
+    good = good and len(zs) == len(aux_all)
     bad_aux = [i for i, z in enumerate(zs) if z == 0]
     ctx.obligation("correspondence maps_phi.v (%d mask/voxel-map setters, %d angular-formula points, %d exact Cartesian chords)"
                    % (len(mask_checks), len(phi_cases), len(chord_cases)), "correspondence", good and not bad_aux,
                    out[-1500:] if not good else "DISAGREE at %s" % bad_aux)
-    if not good:
-        ctx.broken.append("coqc failed on %s: %s" % (aux_path, out[-500:]))
     n_calls = len(flat)
     ctx.log("correspondence: %d calls in %d files (%d traced), %d disagree; %d map / %d phi checks, %d disagree"
             % (n_calls, len(paths), sum(len(g["cases"]) for g in traced), len(diff), len(mask_checks), len(phi_cases), len(bad_aux)))
